@@ -354,6 +354,21 @@ pub fn run_request(cmd: &str, args: &[&str]) -> Option<String> {
 
 fn add(s: &mut Session, gen: &'static str, bytes: &[u8]) {
     let (imp, why) = run_impl(bytes);
+    if imp.starts_with("ok ") {
+        // which accepting leaf of the decoder was taken (coverage note in the report)
+        let l = bytes.len();
+        let leaf = if l == 16 {
+            "accepted:short"
+        } else {
+            match (bytes[l - 4] & 0x20 != 0, bytes[l - 4] & 0x10 != 0) {
+                (true, _) => "accepted:long,suppression-on,keep-bit",
+                (false, true) => "accepted:long,suppression-off,keep-bit",
+                (false, false) => "accepted:long,suppression-off,no-keep-bit",
+            }
+        };
+        let e = s.notes.entry(leaf.to_string()).or_insert(serde_json::json!(0));
+        *e = serde_json::json!(e.as_u64().unwrap_or(0) + 1);
+    }
     s.push_oracle(gen, format!("adc {}", hex(bytes)), imp, why);
 }
 
@@ -489,7 +504,8 @@ fn cell(rng: &mut Rng, macs: &[[u8; 6]], n: usize, supp: bool, kb: bool, kl: u16
 
 pub fn generate(s: &mut Session, thorough: bool) -> bool {
     let mut rng = Rng::new(s.seed);
-    let scale: usize = if thorough { 30 } else { 1 };
+    let scale: usize = if thorough { 60 } else { 1 };
+    let table_reps = if thorough { 15 } else { 1 };
     let macs = known_macs();
     s.notes.insert("known_macs".into(), serde_json::json!(macs.len()));
 
@@ -568,9 +584,11 @@ pub fn generate(s: &mut Session, thorough: bool) -> bool {
                             }
                             let cs: &[Content] = if big { &CONTENTS[..1] } else { table_contents };
                             for c in cs {
-                                let hi = rng.below(4) as u8;
-                                let b = cell(&mut rng, &macs, n, supp, kb, kl, req as u16, *c, hi, 0);
-                                add(s, "decision-table", &b);
+                                for _ in 0..(if big { 1 } else { table_reps }) {
+                                    let hi = rng.below(4) as u8;
+                                    let b = cell(&mut rng, &macs, n, supp, kb, kl, req as u16, *c, hi, 0);
+                                    add(s, "decision-table", &b);
+                                }
                             }
                         }
                     }
